@@ -24,6 +24,12 @@ pub uninterp spec fn spec_parse_ip(s: Seq<char>) -> Option<IpAddr>;      // IpAd
     ensures (r is Ok) == (spec_parse_ip(s@) is Some), r is Ok ==> r->Ok_0 == spec_parse_ip(s@).unwrap()
 { unimplemented!() }
 
+// ---- the file: std::fs::read_to_string gives the WHOLE content of the file at `path`, or an error (uninterpreted environment) ----
+#[verifier::external_body] pub struct FsErr { _p: () }
+pub uninterp spec fn spec_file(path: Seq<char>) -> Option<Seq<char>>;
+#[verifier::external_body] pub fn fs_read_to_string(path: &str) -> (r: Result<String, FsErr>)
+    ensures (r is Ok) == (spec_file(path@) is Some), r is Ok ==> r->Ok_0@ == spec_file(path@).unwrap()
+{ unimplemented!() }
 // ---- spec: what the file means ----
 pub open spec fn blank(l: Seq<char>) -> bool { spec_trim(l).len() == 0 }
 pub open spec fn parsable(l: Seq<char>) -> bool { !blank(l) && spec_parse_ip(spec_trim(l)) is Some }
@@ -79,6 +85,15 @@ def build():
         // saw_content && no parsable line => some line is invalid
         if saw_content && ips.len() == 0 { lemma_content_without_parsed_has_invalid(%s, %s); }
     }''' % (L, N), 'before')]))
+    FL = 'spec_lines(spec_file(path@).unwrap())'
+    FN = FL + '.len() as int'
+    u.add(u.fn(RL, 'analyze_ip_reload', sub='reload', ret='r', props=(),
+               pre_rewrite=[('std::fs::read_to_string(path)', 'fs_read_to_string(path)', 1)],
+               ensures=[
+                   C('C19.reload.file.an_unreadable_file_refuses_the_reload', 'spec_file(path@) is None ==> r is Refuse && r->Refuse_0 is NotFound'),
+                   C('C19.reload.file.the_whole_file_is_analysed', '''spec_file(path@) is Some ==> ((r is Refuse) == (parsed(%s, %s).len() == 0))
+            && (r is Apply ==> r->ips@ == parsed(%s, %s))''' % (FL, FN, FL, FN)),
+               ]))
     u.add(r'''
 pub proof fn lemma_content_without_parsed_has_invalid(lines: Seq<Seq<char>>, n: int)
     requires 0 <= n <= lines.len(), has_content(lines, n), parsed(lines, n).len() == 0,
